@@ -115,7 +115,7 @@ def queryLoopP (t : Toggles) (p : Program) : Nat → Key → Caller → MP QRes
     if (findComp k s.computing).isSome then
       match caller with
       | .query c _ _ =>
-        let cyc ← checkCyclic (s.computing.length + 1) k c
+        let cyc ← checkCyclic (s.computing.length + 1) k c t.f33
         if cyc then
           modifyComp c fun cc => { cc with inScc := true }
           return .cyclic
